@@ -54,7 +54,7 @@ class AcctWorld(BufWorld):
         exp = self.model_size()
         if got != exp:
             raise Mismatch("buffer_size", step=step, got=got, expected=exp,
-                           private_buffer_keys=sorted(k.rsplit("/", 1)[-1] for k in cls._buffer))
+                           private_buffer_keys=sorted(str(k).rsplit("/", 1)[-1] for k in getattr(cls, "_buffer", ())))
         capg = cls.get_buffer_capacity()
         if capg != self.cap:
             raise Mismatch("buffer_capacity", step=step, got=capg, expected=self.cap)
